@@ -59,32 +59,32 @@ Ltac offcase :=
     rewrite fmt_hex_isz by (fold_pows; lia) ].
 
 Lemma alu_imm_str_ok : gen_alu_imm_str name i = Ok (render name ShAluImm i x).
-Proof. unfold gen_alu_imm_str, render. rewrite fmt_dec_nonneg by exact Hd. reflexivity. Qed.
+Proof. unfold gen_alu_imm_str, render. rewrite fmt_dec_nonneg by exact Hd. timeout 30 reflexivity. Qed.
 Lemma alu_reg_str_ok : gen_alu_reg_str name i = Ok (render name ShAluReg i x).
-Proof. unfold gen_alu_reg_str, render. rewrite !fmt_dec_nonneg by assumption. reflexivity. Qed.
+Proof. unfold gen_alu_reg_str, render. rewrite !fmt_dec_nonneg by assumption. timeout 30 reflexivity. Qed.
 Lemma byteswap_str_ok : gen_byteswap_str name i = Ok (render name ShEndian i x).
-Proof. unfold gen_byteswap_str, render. rewrite (fmt_dec_nonneg (dst i)) by assumption. reflexivity. Qed.
+Proof. unfold gen_byteswap_str, render. rewrite (fmt_dec_nonneg (dst i)) by assumption. timeout 30 reflexivity. Qed.
 Lemma ldabs_str_ok : gen_ldabs_str name i = Ok (render name ShLdAbs i x).
-Proof. reflexivity. Qed.
+Proof. timeout 30 reflexivity. Qed.
 Lemma ldind_str_ok : gen_ldind_str name i = Ok (render name ShLdInd i x).
-Proof. unfold gen_ldind_str, render. rewrite fmt_dec_nonneg by exact Hs. reflexivity. Qed.
+Proof. unfold gen_ldind_str, render. rewrite fmt_dec_nonneg by exact Hs. timeout 30 reflexivity. Qed.
 Lemma ld_reg_str_ok : gen_ld_reg_str name i = Ok (render name ShLdReg i x).
-Proof. unfold gen_ld_reg_str, render. rewrite !fmt_dec_nonneg by assumption. offcase; reflexivity. Qed.
+Proof. unfold gen_ld_reg_str, render. rewrite !fmt_dec_nonneg by assumption. offcase; timeout 30 timeout 30 reflexivity. Qed.
 Lemma ld_st_imm_str_ok : gen_ld_st_imm_str name i = Ok (render name ShStImm i x).
-Proof. unfold gen_ld_st_imm_str, render. rewrite !fmt_dec_nonneg by assumption. offcase; reflexivity. Qed.
+Proof. unfold gen_ld_st_imm_str, render. rewrite !fmt_dec_nonneg by assumption. offcase; timeout 30 timeout 30 reflexivity. Qed.
 Lemma st_reg_str_ok : gen_st_reg_str name i = Ok (render name ShStReg i x).
-Proof. unfold gen_st_reg_str, render. rewrite !fmt_dec_nonneg by assumption. offcase; reflexivity. Qed.
+Proof. unfold gen_st_reg_str, render. rewrite !fmt_dec_nonneg by assumption. offcase; timeout 30 timeout 30 reflexivity. Qed.
 Lemma jmp_imm_str_ok : gen_jmp_imm_str name i = Ok (render name ShJmpImm i x).
-Proof. unfold gen_jmp_imm_str, render. rewrite !fmt_dec_nonneg by assumption. offcase; reflexivity. Qed.
+Proof. unfold gen_jmp_imm_str, render. rewrite !fmt_dec_nonneg by assumption. offcase; timeout 30 timeout 30 reflexivity. Qed.
 Lemma jmp_reg_str_ok : gen_jmp_reg_str name i = Ok (render name ShJmpReg i x).
-Proof. unfold gen_jmp_reg_str, render. rewrite !fmt_dec_nonneg by assumption. offcase; reflexivity. Qed.
+Proof. unfold gen_jmp_reg_str, render. rewrite !fmt_dec_nonneg by assumption. offcase; timeout 30 timeout 30 reflexivity. Qed.
 Lemma soff_text :
   (if off i >=? 0 then Ok (name ++ " +" ++ fmt_hex I16 (off i))%string
    else v <- cneg ISZ 0 (cast ISZ (off i)) ;; Ok (name ++ " -" ++ fmt_hex ISZ v)%string)
   = Ok (render name ShJa i x).
-Proof. unfold render. offcase; reflexivity. Qed.
+Proof. unfold render. offcase; timeout 30 timeout 30 reflexivity. Qed.
 Lemma unary_text : (name ++ " r" ++ fmt_dec (dst i))%string = render name ShUnary i x.
-Proof. unfold render. rewrite fmt_dec_nonneg by exact Hd. reflexivity. Qed.
+Proof. unfold render. rewrite fmt_dec_nonneg by exact Hd. timeout 30 reflexivity. Qed.
 End Helpers.
 
 Opaque gen_alu_imm_str gen_alu_reg_str gen_byteswap_str gen_ldabs_str gen_ldind_str gen_ld_reg_str gen_ld_st_imm_str
